@@ -158,6 +158,7 @@ pub extern "C" fn anoncreds_verify_presentation(
     result_p: *mut i8,
 ) -> ErrorCode {
     catch_error(|| {
+        check_useful_c_ptr!(result_p);
         let cred_defs = _prepare_cred_defs(cred_defs, cred_def_ids)?;
         let schemas = _prepare_schemas(schemas, schema_ids)?;
         let rev_reg_defs = _rev_reg_defs(rev_reg_defs, rev_reg_def_ids)?;
